@@ -286,7 +286,15 @@ pub fn rand_step(rng: &mut Rng, valid_pub: &[Vec<u8>]) -> String {
         23 => if rng.chance(1, 2) { "step op=redecode".to_string() } else {
             format!("step op=reannounce what={} n={}", rng.pick(&["client", "udp4", "udp6", "tcp4", "tcp6", "ip4", "ip6", "udp4s", "tcp4s", "udp6s", "tcp6s", "raw", "pubkey"]), rng.below(4))
         },
-        24 => if rng.chance(1, 2) { format!("step op=snap slot={}", rng.below(2)) } else { "step op=tamperdec".to_string() },
+        24 => match rng.below(3) {
+            0 => format!("step op=snap slot={}", rng.below(2)),
+            1 => "step op=tamperdec".to_string(),
+            _ => format!(
+                "step op=load slot={} how={}",
+                rng.below(2),
+                rng.pick(&["clone", "clone_from", "vec_clone_from", "clone_from_slice"])
+            ),
+        },
         _ => format!("step op=cmp slot={}", rng.below(2)),
     }
 }
@@ -333,6 +341,13 @@ pub fn rep_steps(valid_pub: &[Vec<u8>], small: bool) -> Vec<String> {
         "step op=insert key=7068 vt=rawenc val=0102".into(),
         "step op=insert key=7068 vt=rawenc val=0183746370821f90".into(),
         "step op=insert key=7068 vt=rawenc val=c20102".into(),
+        // list values under a custom key whose inner bytes are not well-formed items (the outer
+        // header is right): handed out by the setters, so the decoder has to take them back
+        "step op=insert_raw key=7878 raw=c3836162".into(),
+        "step op=insert_raw key=7878 raw=c28105".into(),
+        "step op=insert_raw key=7878 raw=c3b80100".into(),
+        "step op=insert key=7878 vt=rawenc val=c181".into(),
+        "step op=remove_insert rm=- ins=7878:c2b800".into(),
         "step op=reannounce what=client".into(),
         "step op=reannounce what=udp4s".into(),
         "step op=reannounce what=tcp6".into(),
@@ -450,6 +465,7 @@ pub fn inits(rng: &mut Rng, sig_len: usize) -> Vec<String> {
     v.push("init kind=build calls=enc:7068:0102;tcp4:5 signer=0".into());
     v.push("init kind=build calls=enc:7068:-;tcp4:5 signer=0".into());
     v.push("init kind=build calls=enc:7068:c101 signer=0".into());
+    v.push("init kind=build calls=raw:7878:c28105;enc:7979:c3836162;raw:7a7a:c3b80100 signer=0".into());
     v.push("init kind=build calls=raw:6b:01;raw:6b:02;uint:6b:3 signer=0".into());
     {
         let many: Vec<String> = (1..=85u8).map(|i| format!("raw:{:02x}:{:02x}", i, (i % 0x7e) + 1)).collect();
@@ -463,7 +479,7 @@ pub fn inits(rng: &mut Rng, sig_len: usize) -> Vec<String> {
 }
 
 fn with_signer(step: &str, signer: usize, fail: bool) -> String {
-    if step.contains("op=snap") || step.contains("op=cmp") || step.contains("op=redecode") || step.contains("op=tamperdec") {
+    if step.contains("op=snap") || step.contains("op=load") || step.contains("op=cmp") || step.contains("op=redecode") || step.contains("op=tamperdec") {
         step.to_string()
     } else {
         format!("{step} signer={signer} fail={}", fail as u8)
@@ -593,6 +609,54 @@ pub fn gen_hist(schemes: &[&str], rng: &mut Rng, thorough: bool, cases: &mut Vec
                     c.lines.push(with_signer(a, s1, f1));
                     cases.push(c);
                 }
+            }
+        }
+        // one record copied over another that belongs to a different node, by every route of the
+        // standard library; then read, re-decoded and updated
+        for how in ["clone", "clone_from", "vec_clone_from", "clone_from_slice", "clone_into", "to_owned"] {
+            for back in [false, true] {
+                let mut c = Case::new("hist", scheme, id, "copy-over-other-node");
+                id += 1;
+                c.keys = keys.clone();
+                c.lines.push("init kind=build calls=udp4:30303 signer=0".into());
+                c.lines.push("step op=snap slot=a".into());
+                c.lines.push(with_signer("step op=set_tcp4 port=9000", 1, false));
+                c.lines.push("step op=snap slot=c".into());
+                if back {
+                    c.lines.push(format!("step op=load slot=a how={how}"));
+                } else {
+                    c.lines.push("step op=load slot=a how=clone".into());
+                    c.lines.push(format!("step op=load slot=c how={how}"));
+                }
+                c.lines.push("step op=redecode".into());
+                c.lines.push(with_signer("step op=set_udp6 port=7", if back { 0 } else { 1 }, false));
+                cases.push(c);
+            }
+        }
+        // values that are themselves records (`Enr: Encodable`, also inside a `Vec`), through the
+        // generic setter and the builder
+        {
+            let inner = crate::gen_dec::Spec::new(1, vec![], k0.clone()).encode(false);
+            let inner2 = crate::gen_dec::Spec::new(2, vec![(b"udp".to_vec(), rlp_uint(9))], k0.clone()).encode(false);
+            let one = crate::util::rlp_list(&inner);
+            let two = crate::util::rlp_list(&[inner.clone(), inner2.clone()].concat());
+            for (vt, val) in [("enr", &inner), ("enr", &inner2), ("enrs", &one), ("enrs", &two), ("enrs", &vec![0xc0u8])] {
+                for (s1, f1) in [(0usize, false), (0, true), (1, false)] {
+                    let mut c = Case::new("hist", scheme, id, "record-valued");
+                    id += 1;
+                    c.keys = keys.clone();
+                    c.lines.push("init kind=build calls=- signer=0".into());
+                    c.lines.push(with_signer(&format!("step op=insert key=626f6f74 vt={vt} val={}", hx(val)), s1, f1));
+                    c.lines.push("step op=redecode".into());
+                    c.lines.push(with_signer("step op=set_udp4 port=30303", 0, false));
+                    cases.push(c);
+                }
+                let mut c = Case::new("hist", scheme, id, "record-valued-builder");
+                id += 1;
+                c.keys = keys.clone();
+                c.lines.push(format!("init kind=build calls={vt}:626f6f74:{};udp4:30303 signer=0", hx(val)));
+                c.lines.push("step op=redecode".into());
+                cases.push(c);
             }
         }
         // random histories
@@ -858,6 +922,36 @@ pub fn gen_size(schemes: &[&str], rng: &mut Rng, thorough: bool, cases: &mut Vec
             ));
             cases.push(c);
         }
+        // results whose size only fits after truncation to 8 or 16 bits (a size kept in a narrower
+        // integer): value lengths in steps of 100 across 2^16, so that every window of 300 is hit
+        for i in 0..=6usize {
+            let len = 65300 + 100 * i;
+            let val = vec![0x61u8; len];
+            for (j, step) in [
+                format!("step op=remove_insert rm=- ins=7a7a:{}", hx(&val)),
+                format!("step op=insert key=7a7a vt=bytes val={}", hx(&val)),
+                format!("step op=insert_raw key=7a7a raw={}", hx(&rlp_bytes(&val))),
+                format!("step op=set_client_info name={} ver=31 build=none", hx(&val)),
+            ]
+            .iter()
+            .enumerate()
+            {
+                if !thorough && (i + j) % 2 == 1 && j != 0 {
+                    continue;
+                }
+                let mut c = Case::new("size", scheme, id, "wraps-16-bits");
+                id += 1;
+                c.keys = keys.clone();
+                c.lines.push("init kind=build calls=seq:1 signer=0".into());
+                c.lines.push(with_signer(step, 0, false));
+                cases.push(c);
+            }
+            let mut c = Case::new("size", scheme, id, "wraps-16-bits-builder");
+            id += 1;
+            c.keys = keys.clone();
+            c.lines.push(format!("init kind=build calls=seq:1;raw:7a7a:{} signer=0", hx(&rlp_bytes(&val))));
+            cases.push(c);
+        }
     }
 }
 
@@ -967,6 +1061,29 @@ pub fn gen_acc(schemes: &[&str], rng: &mut Rng, thorough: bool, cases: &mut Vec<
                 0,
                 false,
             ));
+            c.lines.push("step op=redecode".into());
+            cases.push(c);
+        }
+        // client strings with content a "tidy-up" could alter: byte-order mark, surrounding blanks,
+        // control characters, letter case, composed / decomposed forms, invisible characters
+        for (i, sp) in [
+            "\u{feff}Geth", "\u{feff}", " Geth", "Geth ", "Geth\n", "\tGeth", "GETH", "geth", "e\u{301}", "\u{e9}",
+            "\u{fb00}", "\0", "a\0b", "\u{200b}x", "\u{202e}x", "\u{fffd}", "x\u{feff}", "\u{1f600}", "\"q\"", "a/b",
+            "\\", "\u{a0}x", "x\r\n", "v1.0.0-\u{3b1}", "\u{130}", "\u{212a}",
+        ]
+        .iter()
+        .enumerate()
+        {
+            let h = hx(sp.as_bytes());
+            let mut c = Case::new("acc", scheme, id, "client-special-strings");
+            id += 1;
+            c.keys = keys.clone();
+            c.lines.push(format!("init kind=build calls=client:{h}:{h}:{} signer=0", if i % 2 == 0 { h.clone() } else { "none".into() }));
+            c.lines.push("step op=redecode".into());
+            c.lines.push(with_signer(&format!("step op=set_client_info name=78 ver={h} build={h}"), 0, false));
+            c.lines.push(with_signer(&format!("step op=set_client_info name={h} ver=31 build=none"), 0, false));
+            let l = rlp_list(&[rlp_bytes(sp.as_bytes()), rlp_bytes(b"1"), rlp_bytes(sp.as_bytes())].concat());
+            c.lines.push(with_signer(&format!("step op=insert_raw key=636c69656e74 raw={}", hx(&l)), 0, false));
             c.lines.push("step op=redecode".into());
             cases.push(c);
         }
@@ -1214,6 +1331,19 @@ pub fn gen_eq(schemes: &[&str], rng: &mut Rng, thorough: bool, cases: &mut Vec<C
             let vp = valid_pubs(rng);
             c.lines.push(with_signer(&rand_step(rng, &vp), 1, false));
             c.lines.push("step op=cmp slot=c".into());
+            c.lines.push("step op=cmp slot=a".into());
+            // copying one record over another that belongs to a different node (every route of the
+            // standard library), then comparing and updating the copy
+            let hows = ["clone_from", "vec_clone_from", "clone_from_slice", "clone_into", "to_owned"];
+            for (i, how) in hows.iter().enumerate() {
+                let (from, other) = if i % 2 == 0 { ("a", "c") } else { ("c", "a") };
+                c.lines.push(format!("step op=load slot={from} how={how}"));
+                c.lines.push(format!("step op=cmp slot={from}"));
+                c.lines.push(format!("step op=cmp slot={other}"));
+                c.lines.push("step op=redecode".into());
+                c.lines.push(format!("step op=cmp slot={from}"));
+            }
+            c.lines.push(with_signer("step op=set_udp4 port=9", 0, false));
             c.lines.push("step op=cmp slot=a".into());
             cases.push(c);
         }
